@@ -167,6 +167,12 @@ type world struct {
 	connFails      int
 	eintrBurst     int
 	replaceStuck   map[string]bool
+
+	// locality: real churn concentrates on one interface / destination for a
+	// while; with probability pFocus an operation reuses the previous subject
+	pFocus    int
+	focusDev  string
+	focusCIDR int
 	ctCalls        int
 }
 
@@ -586,6 +592,9 @@ func (n *nlWrap) RouteReplace(rt *netlink.Route) error {
 	err := n.routeReplace(rt)
 	if err != nil {
 		n.w.noteReplaceFailed(mocknetlink.KeyForRoute(rt))
+		n.w.r.Logf("  nl: RouteReplace {%s} -> %v", canon(rt), err)
+	} else {
+		n.w.r.Logf("  nl: RouteReplace {%s} -> ok", canon(rt))
 	}
 	return err
 }
@@ -659,6 +668,7 @@ func (n *nlWrap) RouteDel(rt *netlink.Route) error {
 	if err == nil {
 		w.felixDeleted[key] = delRec{canon(&old), old.LinkIndex}
 	}
+	w.r.Logf("  nl: RouteDel %s (was {%s}) -> %v", key, canon(&old), err)
 	return err
 }
 
@@ -741,7 +751,13 @@ func (w *world) kDel(name string) {
 
 // linkOp performs one random link-table change; returns a description.
 func (w *world) linkOp(label string) string {
-	name := w.devices[w.r.Src.Intn(len(w.devices), label+"_dev")]
+	name := ""
+	if w.focusDev != "" && w.focusDev != ifNone && w.pFocus > 0 && w.r.Src.Chance(w.pFocus, label+"_focus") {
+		name = w.focusDev
+	} else {
+		name = w.devices[w.r.Src.Intn(len(w.devices), label+"_dev")]
+	}
+	w.focusDev = name
 	if w.link(name) == nil {
 		up := !w.r.Src.Chance(300, label+"_new_down")
 		w.kAdd(name, up)
@@ -936,6 +952,13 @@ func (w *world) pickEvent(label string) int {
 			firsts = append(firsts, i)
 		}
 	}
+	if w.focusDev != "" && w.pFocus > 0 && w.r.Src.Chance(w.pFocus, label+"_focus") {
+		for _, i := range firsts {
+			if w.events[i].name == w.focusDev {
+				return i
+			}
+		}
+	}
 	return firsts[w.r.Src.Intn(len(firsts), label)]
 }
 
@@ -954,7 +977,12 @@ func (w *world) needsExclusive(iface string) bool {
 }
 
 func (w *world) genTarget(cs classSpec, iface string) routetable.Target {
-	c := w.pool[w.r.Src.Intn(len(w.pool), "tgt_cidr")]
+	ci := w.focusCIDR
+	if !(w.pFocus > 0 && w.r.Src.Chance(w.pFocus, "tgt_focus")) || ci >= len(w.pool) {
+		ci = w.r.Src.Intn(len(w.pool), "tgt_cidr")
+	}
+	w.focusCIDR = ci
+	c := w.pool[ci]
 	t := routetable.Target{RouteKey: routetable.RouteKey{CIDR: c}}
 	if w.r.Src.Chance(80, "tgt_prio") {
 		t.Priority = 100
@@ -981,11 +1009,20 @@ func (w *world) genTarget(cs classSpec, iface string) routetable.Target {
 }
 
 func (w *world) pickClassIface() (classSpec, string) {
+	if w.focusDev != "" && w.pFocus > 0 && w.r.Src.Chance(w.pFocus, "class_focus") {
+		// stay on the interface the previous operation was about, if some class of this run uses it
+		for _, cs := range w.classes {
+			if cs.iface == w.focusDev || (cs.iface == "wl" && w.isWorkload(w.focusDev)) {
+				return cs, w.focusDev
+			}
+		}
+	}
 	cs := w.classes[w.r.Src.Intn(len(w.classes), "class")]
 	iface := cs.iface
 	if iface == "wl" {
 		iface = w.workloads[w.r.Src.Intn(len(w.workloads), "wl")]
 	}
+	w.focusDev = iface
 	return cs, iface
 }
 
@@ -1250,7 +1287,7 @@ var faultKinds = []string{
 func run(r *core.R) {
 	r.FaultDecl(faultKinds...)
 	r.FaultDecl("kernel_change_during_apply", "notification_lost", "oob_delete_owned_route", "oob_delete_foreign_route", "oob_add_owned_looking_route", "oob_add_foreign_route")
-	r.ProbeDecl("apply_ok", "apply_returned_error", "exact_check_in_chaos", "exact_check_keys", "exact_check_skipped_unsettled_key", "link_bounced", "conflict_resolved_by_class", "conflict_fallback_better_class_link_down",
+	r.ProbeDecl("apply_ok", "apply_returned_error", "exact_check_in_chaos", "exact_check_after_settling", "exact_check_keys", "exact_check_skipped_unsettled_key", "link_bounced", "conflict_resolved_by_class", "conflict_fallback_better_class_link_down",
 		"grace_period_kept_unknown_route", "foreign_route_replaced_by_desired", "flap_without_apply_between", "link_renumbered",
 		"kernel_rejected_absent_link", "kernel_rejected_down_link", "route_del_esrch", "eintr_burst_armed", "route_replace_failed_persistently", "own_delete_then_replace_failed", "socket_reopened",
 		"full_listing_ok", "iface_listing_ok", "iface_listing_failed", "kernel_change_during_apply", "start_state_stale_owned_routes",
@@ -1326,18 +1363,22 @@ func run(r *core.R) {
 			w.pMid = r.Src.Range(5, 60, "cfg_mid_rate")
 		}
 	}
+	w.pFocus = []int{0, 350, 700}[r.Src.Intn(3, "cfg_focus")]
+	r.Cfg("focus", w.pFocus)
 	pLose := 0
 	if w.faultsOn && r.Src.Chance(300, "cfg_lose") {
 		pLose = r.Src.Range(30, 200, "cfg_lose_rate")
 	}
-	// op mix presets: 0 balanced, 1 interface churn heavy, 2 desired-state heavy, 3 foreign-edit heavy
-	mix := r.Src.Intn(4, "cfg_mix")
+	// op mix presets: 0 balanced, 1 interface churn heavy, 2 desired-state heavy, 3 foreign-edit heavy,
+	// 4 slow interface monitor (Felix acts on a stale view of the links for long stretches)
+	mix := r.Src.Intn(5, "cfg_mix")
 	//                 apply upd rem set link notify oob resync time resyncIface settle revert
 	weights := [][]int{
 		{14, 18, 6, 8, 10, 14, 8, 4, 6, 2, 6, 6},
 		{12, 12, 4, 5, 22, 20, 4, 4, 6, 4, 8, 5},
 		{12, 26, 8, 14, 6, 10, 4, 4, 4, 2, 6, 10},
 		{14, 14, 4, 6, 8, 10, 22, 6, 6, 2, 8, 6},
+		{18, 24, 4, 8, 16, 3, 3, 3, 4, 2, 2, 6},
 	}[mix]
 	var clNames []string
 	for _, cs := range w.classes {
@@ -1556,6 +1597,25 @@ func run(r *core.R) {
 	for len(w.events) > 0 {
 		w.deliver(0, false)
 	}
+	// Step A: no resync is requested yet.  Felix has been told about every
+	// link change, so Apply alone must get every destination right that nobody
+	// edited behind its back (those wait for the resync of step B).
+	for n := 1; n <= 3; n++ {
+		err := w.apply(fmt.Sprintf("settle Apply #%d", n))
+		if err != nil {
+			continue
+		}
+		if w.inSync(err) {
+			oracle, msg := w.exactOpt(true, true)
+			r.Eval()
+			r.Probe("exact_check_after_settling")
+			if oracle != "" {
+				r.Violation(oracle, "after faults stopped and every notification was delivered (no resync requested): %s\nkernel: %s", msg, w.dumpKernel())
+			}
+		}
+		break
+	}
+	// Step B: the periodic resync fires.
 	w.sut(func() { w.rt.QueueResync() })
 	converged := 0
 	var lastOracle, lastMsg string
